@@ -415,6 +415,8 @@ class Segment(object):
         @type val: string
         """
         (ele_idx, comp_idx) = self._parse_refdes(ref_des)
+        if self.seg_id == 'ISA' and comp_idx is not None and comp_idx > 0:
+            raise EngineError('ISA elements have no components: %s' % (ref_des))
         while len(self.elements) <= ele_idx:
             # insert blank values before our value if needed
             self.elements.append(Composite('', self.subele_term))
